@@ -24,7 +24,9 @@ RULE = ('Hypothesis: messages of all 18 types x times (ints incl. negative and >
         'mido classes; every negative text raises ValueError; arbitrary text gives a valid message or ValueError; '
         'parse_string_stream yields one item per non-blank non-comment line in order, (msg, None) or (None, text with '
         '"line <n>"), and never raises. Non-trivial = non-default attributes / an invalid line followed by a valid one; '
-        'distinct by text.')
+        'distinct by text.'
+        ' Later additions: text streams as list / tuple / iterator / file object, include_time=False, option words'
+        ' (skip_checks=1) as invalid, a MidiFile loaded by name then emptied in eval(repr()).')
 ASSUMPTIONS = ['lexical liberties of int()/float() (1_0, +5, unicode digits) and skip_checks= inside text are not judged',
                'NaN and infinite times are excluded (the statement says finite)']
 
